@@ -77,9 +77,14 @@ def MU_LIB(body="Earth"):
 # magnitudes: st.integers(0, 10**9) puts ~93 % of its mass below 10**8.  Ranges <= 1000 are uniform.
 @st.composite
 def unit(draw):
-    """Uniform on [0, 1) on a 1e-9 grid (three uniform 3-digit draws)."""
-    return (draw(st.integers(0, 999)) * 10**6 + draw(st.integers(0, 999)) * 1000
-            + draw(st.integers(0, 999))) / 1e9
+    """[0, 1): 3/4 of the draws truly uniform (a PRNG seeded by a Hypothesis-drawn integer, so the value
+    is still a pure function of the Hypothesis choice sequence and replays), 1/4 Hypothesis' own float
+    distribution (mass on 0, 0.5, tiny values - the edge cases, and what the shrinker can simplify)."""
+    import random
+
+    if draw(st.integers(0, 3)) == 0:
+        return draw(st.floats(0, 1, exclude_max=True, allow_nan=False))
+    return random.Random(draw(st.integers(0, 2**32 - 1))).random()
 
 
 def uniform(lo, hi):
